@@ -24,7 +24,7 @@ from pyvc.interp import PyRaise
 from pyvc.loops import ForSpec
 from pyvc.models import GhostLock
 from pyvc.harness import native_call
-from .common import raw, loop_keys
+from .common import harness_connection, native_connection, lock_name, raw, loop_keys
 
 ASSUMPTIONS = [
     'exception handlers do not mutate the handler list while it is being traversed',
@@ -145,7 +145,7 @@ class Chain(Unit):
         self.raised_by_handler = None
         self.frame = None
         n = E.new_int('n_handlers', 0, None)
-        conn = object.__new__(Connection)
+        conn = harness_connection()
         e0 = AbsExc(0)
         # final handler: None / False / function that returns / function that raises
         fk = E.fork(4, 'final-handler')
@@ -268,7 +268,7 @@ class ChainUnrolled(Unit):
                     raise raised[j]
             return handler
         e0 = AbsExc(E.new_int('original'))
-        conn = object.__new__(Connection)
+        conn = native_connection()
         conn.__dict__.update(handle_exception=False, reactor=types.SimpleNamespace(handle_exception=lambda e, i: False),
                              _exception_handlers=[(mk(j), AbsTypes(self, j)) for j in range(k)],
                              networking_thread=types.SimpleNamespace(interrupt=False), new_networking_thread=None,
@@ -317,7 +317,7 @@ class E3(Exception):
 
 def replay_chain(rng):
     """Reference fold (written from the statement) against the real _handle_exception."""
-    conn = object.__new__(Connection)
+    conn = native_connection()
     conn._exception_handlers = []
     trace = []
     specs = []
@@ -394,7 +394,7 @@ class RegisterHandler(Unit):
 
     def run(self, I):
         E = I.E
-        conn = object.__new__(Connection)
+        conn = harness_connection()
         pre = [('h0', ()), ('h1', (E1,))]
         conn.__dict__['_exception_handlers'] = list(pre)
         k = E.fork(3, 'early')
@@ -460,7 +460,7 @@ class HandlerDecorator(Unit):
         kw = {} if k == 0 else {'early': k == 2}
         types_ = (E1, E3)[:E.fork(3, 'types')]
         f = lambda e, i: None
-        a, b = object.__new__(Connection), object.__new__(Connection)
+        a, b = harness_connection(), harness_connection()
         for c in (a, b):
             c.__dict__['_exception_handlers'] = [('h0', ()), ('h1', (E1,))]
         dec = I.call(I.getattr_(a, 'exception_handler'), *types_, **kw)
@@ -482,11 +482,12 @@ class ConnProbe(object):
 
     def __init__(self):
         object.__setattr__(self, 'log', [])
-        object.__setattr__(self, '_write_lock', GhostLock())
+        object.__setattr__(self, 'the_lock', GhostLock())
+        object.__setattr__(self, lock_name(), self.the_lock)          # under whatever name the code uses for it
         object.__setattr__(self, 'slots', {'networking_thread': 'T', 'new_networking_thread': 'T'})
 
     def __setattr__(self, k, v):
-        self.log.append((k, v, self._write_lock.depth))
+        self.log.append((k, v, self.the_lock.depth))
         self.slots[k] = v
 
 
@@ -559,7 +560,7 @@ class ThreadWrapper(Unit):
         last = conn.log[-1] if conn.log else None
         E.check('wrapper.finally-idle', last == ('networking_thread', None, 1),
                 note='on EVERY path the slot is cleared under the lock, so the connection can connect again')
-        E.check('wrapper.lock-released', conn._write_lock.depth == 0)
+        E.check('wrapper.lock-released', conn.the_lock.depth == 0)
         # the base reactor's hook never suppresses
         r = I.call(raw(PacketReactor, 'handle_exception'), object.__new__(PacketReactor), boom, (AbsExc, boom, None))
         E.check('hook.default-false', r is False)
@@ -582,7 +583,7 @@ def replay_wrapper():
         for exit_k in range(2):
             for he_k in range(2):
                 n += 1
-                conn = types.SimpleNamespace(_write_lock=threading.RLock(), networking_thread='T', new_networking_thread=None)
+                conn = types.SimpleNamespace(networking_thread='T', new_networking_thread=None, **{lock_name(): threading.RLock()})
                 t = NetworkingThread(conn)
                 seen = []
                 boom, boom2 = E1('run'), E2('exit')
